@@ -3,7 +3,7 @@ import re
 from ..core import walk, norm, callee, callee_decl, peel, children, pat_bindings, short, expr_str
 from . import hirq
 
-ASSIGNED_RE = re.compile(r'\bAssigned[A-Z]\w*|\bAssignedCell\b|\bFakePoint\b')
+ASSIGNED_RE = re.compile(r'\bAssigned[A-Z]\w*|\bAssignedCell\b|\bFakePoint\b|(?<![\w:])Assigned(?![\w])')
 
 
 def has_assigned(t):
